@@ -15,8 +15,11 @@ type RawEnc struct{ W *World }
 
 func (RawEnc) Marshal(msg drpc.Message) ([]byte, error) { return *(msg.(*[]byte)), nil }
 func (e RawEnc) Unmarshal(buf []byte, msg drpc.Message) error {
-	if e.W != nil && e.W.Points != nil {
-		e.W.Points.hit("harness.Unmarshal.holding")
+	if e.W != nil {
+		e.W.noteDelivery(buf)
+		if e.W.Points != nil {
+			e.W.Points.hit("harness.Unmarshal.holding")
+		}
 	}
 	*(msg.(*[]byte)) = append([]byte(nil), buf...)
 	return nil
